@@ -42,7 +42,16 @@ def run(rep):
                  need=["DoSow", "DoReSow", "GrowAny", "GrowSetAny", "DoGrowMissing", "DoFixFn", "DeleteAny", "CorruptAny",
                        "DoCheckBad", "DoReload"])]
     crop.drive(rep, runs, claims=lambda tag: tag.startswith(CLAIMS_PREFIX))
+    # code -> spec: the repository's own crop / farming tests, recorded by vx/pytest_vx.py, validated by CropTrace.tla
+    from .. import croptrace
+    croptrace.check_repo_tests(rep, ("sow", "grow", "grow_missing", "check_bad"))
 
 
 def replay(rep, saved):
+    if saved.get("kind") == "test_trace":
+        from .. import croptrace
+        rej, at, _ = croptrace.validate(None, [saved], name="CropTraceReplay", progress=True)
+        if rej:
+            rep.add_violation(saved, "recorded test trace rejected by CropTrace.tla at event %d" % at.get(1, 0))
+        return
     crop.replay_saved(rep, saved)
